@@ -1210,7 +1210,8 @@ def read_ms5_xsf(path, prefix, qc, corr, sep="r", **kwargs):
                 se = f.split(".")[0]
                 for s in f.split(".")[1:-2]:
                     se += "." + s
-                names.append(se.split(sep)[0] + "|r" + se.split(sep)[1])
+                idx = se.index(sep, len(prefix))
+                names.append(se[:idx] + "|r" + se[idx + len(sep):])
             else:
                 names.append(prefix)
     if 'idl' in kwargs:
